@@ -1841,6 +1841,8 @@ class CombineReuse(_Base):
 
 HARNESSES = [Laws(), Partitions(), Sets(), Combine(), Histories(),
              SetHistories(), CombineReuse()]
+for _h in HARNESSES:      # many tiny work units: share forks
+    type(_h).units_per_process = 8
 
 MANIFEST = dict(
     category='model_checking',
